@@ -148,6 +148,7 @@ bool DecodeInteger(const ::std::string &text, IntType *result) {
   }
   // "", "0x", "0b", "-", "-0x", and "-0b" are not valid numbers.
   if (offset == text.size()) return false;
+  bool seen_digit = false;
   for (; offset < text.size(); ++offset) {
     char c = text[offset];
     IntType digit = 0;
@@ -168,6 +169,7 @@ bool DecodeInteger(const ::std::string &text, IntType *result) {
     if (digit >= base) {
       return false;
     }
+    seen_digit = true;
     if (negative) {
       if (accumulator <
           (::std::numeric_limits<IntType>::min() + digit) / base) {
@@ -182,6 +184,8 @@ bool DecodeInteger(const ::std::string &text, IntType *result) {
       accumulator = accumulator * base + digit;
     }
   }
+  // "0x_", "-_" and the like consist of separators only.
+  if (!seen_digit) return false;
   *result = accumulator;
   return true;
 }
